@@ -95,6 +95,19 @@ def build_item(item):
     jnp = L["jnp"]
     if item["kind"] == "spec":
         return ds.make_dist(item["spec"]), None
+    if item["kind"] == "bcast":
+        # constructor broadcasting: vector loc with a python-scalar / 0-d / size-one scale (seeded change C04f kept the scale unbroadcast,
+        # so the log-determinant counted it once instead of once per element; the density then integrates to scale**(1-dim))
+        import flowjax.bijections as fb
+        import flowjax.distributions as fd
+
+        r = np.random.default_rng(np.random.PCG64(item["perturb_seed"]))
+        form = [lambda v: float(v), lambda v: jnp.asarray(float(v)), lambda v: jnp.asarray([float(v)])][item["variant"] % 3]
+        base = fd.Normal(jnp.asarray(r.normal(0, 0.5, 2)), form(np.exp(r.normal(-0.4, 0.3))))
+        if item["variant"] >= 3:
+            base = fd.Laplace(jnp.asarray(r.normal(0, 0.5, 2)), form(np.exp(r.normal(-0.4, 0.3))))
+        bij = fb.Chain([fb.Affine(jnp.asarray(r.normal(0, 0.5, 2)), form(np.exp(r.normal(0.5, 0.3)) * (1 if item["variant"] % 2 else -1))), fb.LeakyTanh(2.0, (2,))])
+        return fd.Transformed(base, bij), None
     flow = ds.build_flow(item["flow"], item["dim"], item["cond"], item["invert"], item["factory_key"])
     rng = np.random.default_rng(np.random.PCG64(item["perturb_seed"]))
     flow = fc.perturb(flow, rng, item["scale"])
@@ -370,6 +383,7 @@ def make_items(ctx):
                 main_items.append(flow_item(n, 1, 2 if (j + r + sd) % 2 == 0 else None, r == 0, rng))
         main_items.append(spec_item(rng, 1, ()))
         main_items.append(spec_item(rng, 1, (1,)))
+        main_items.append(dict(kind="bcast", dim=2, variant=int(rng.integers(0, 6)), perturb_seed=int(rng.integers(0, 2**31)), sample_key=int(rng.integers(0, 2**31)), ks=True))
         two = [("coupling", None, True), ("maf-rqs", None, False), ("triangular-spline", 2, True), ("planar", None, False), ("maf-affine", 2, True)]
         for q in (0, 2):
             t = two[(sd + q) % 5]
@@ -391,6 +405,8 @@ def make_items(ctx):
             main_items.append(spec_item(rng, 1, [(), (1,)][i % 2]))
         for i in range(4):
             main_items.append(spec_item(rng, 2, (2,)))
+        for v in range(6):
+            main_items.append(dict(kind="bcast", dim=2, variant=v, perturb_seed=int(rng.integers(0, 2**31)), sample_key=int(rng.integers(0, 2**31)), ks=True))
         bnaf_items.append(flow_item("bnaf", 2, None, True, rng, scale=0.2, ks=False))
         bnaf_items.append(flow_item("bnaf", 2, 2, True, rng, scale=0.2, ks=False))
         for rep in range(2):
@@ -402,7 +418,7 @@ def make_items(ctx):
 
 def judge(ctx, unit_q, unit_ks, item, res):
     """thresholds of DESIGN 4.4 on one finished item."""
-    name = item.get("flow", "hand-built")
+    name = item.get("flow", "ctor-broadcast" if item.get("kind") == "bcast" else "hand-built")
     tag = f"{name}:dim{item['dim']}:inv{item.get('invert')}:cond{item.get('cond') is not None}"
     if "error" in res:
         ctx.violation(sig=f"quadrature:{name}:crash", what=f"{tag}: evaluation raised {res['error']}", case=item, found_input=True, unit=unit_q.name,
